@@ -117,6 +117,7 @@ pub fn minimise<P: Prop>(
                 probes: Probes::default(),
                 panics: vec![],
                 detail: json!(null),
+                extra_keys: vec![],
             };
             return (best_w, best_t, r, 0);
         }
@@ -209,6 +210,8 @@ pub struct WorkerSummary {
     pub panics: u64,
     pub panic_samples: Vec<String>,
     pub keys: Vec<u64>,
+    #[serde(default)]
+    pub keys2: Vec<u64>,
     pub probes: Probes,
     pub samples: Vec<serde_json::Value>,
     pub known: BTreeMap<String, (u64, String)>,
@@ -276,6 +279,7 @@ pub fn worker<P: Prop>(
     let t0 = Instant::now();
     let mut sum = WorkerSummary::default();
     let mut keys: HashSet<u64> = HashSet::new();
+    let mut keys2: HashSet<u64> = HashSet::new();
     let mut last_flush = Instant::now();
     let mut idx = start;
     let mut code = 0;
@@ -307,6 +311,7 @@ pub fn worker<P: Prop>(
                             .push(format!("run {}: {:?}", idx, rep.panics[0]));
                     }
                 }
+                keys2.extend(rep.extra_keys.iter().copied());
                 if rep.nontrivial {
                     sum.nontrivial += 1;
                     keys.insert(rep.distinct_key);
@@ -358,11 +363,13 @@ pub fn worker<P: Prop>(
         if last_flush.elapsed() > Duration::from_millis(300) {
             let mut part = std::mem::take(&mut sum);
             part.keys = keys.drain().collect();
+            part.keys2 = keys2.drain().collect();
             emit(&WorkerMsg::Summary(Box::new(part)));
             last_flush = Instant::now();
         }
     }
     sum.keys = keys.into_iter().collect();
+    sum.keys2 = keys2.into_iter().collect();
     emit(&WorkerMsg::Summary(Box::new(sum)));
     emit(&WorkerMsg::Done);
     sandbox_done(&root);
@@ -519,6 +526,7 @@ pub struct CheckOpts {
 struct Agg {
     sum: WorkerSummary,
     keys: HashSet<u64>,
+    keys2: HashSet<u64>,
     aborted: Vec<(u64, String)>,
     violations: Vec<(ReplayFile, ReplayFile, u64)>,
     harness: Vec<String>,
@@ -549,6 +557,7 @@ pub fn check<P: Prop>(o: &CheckOpts) -> i32 {
             let mut agg = Agg {
                 sum: WorkerSummary::default(),
                 keys: HashSet::new(),
+                keys2: HashSet::new(),
                 aborted: vec![],
                 violations: vec![],
                 harness: vec![],
@@ -654,6 +663,7 @@ pub fn check<P: Prop>(o: &CheckOpts) -> i32 {
                                 e.0 += v.0;
                             }
                             agg.keys.extend(s.keys);
+                            agg.keys2.extend(s.keys2);
                         }
                         Err(_) => {}
                     }
@@ -692,6 +702,7 @@ pub fn check<P: Prop>(o: &CheckOpts) -> i32 {
     let mut all = Agg {
         sum: WorkerSummary::default(),
         keys: HashSet::new(),
+        keys2: HashSet::new(),
         aborted: vec![],
         violations: vec![],
         harness: vec![],
@@ -721,6 +732,7 @@ pub fn check<P: Prop>(o: &CheckOpts) -> i32 {
             e.0 += v.0;
         }
         all.keys.extend(a.keys);
+        all.keys2.extend(a.keys2);
         all.aborted.extend(a.aborted);
         all.violations.extend(a.violations);
         all.harness.extend(a.harness);
@@ -860,6 +872,7 @@ pub fn check<P: Prop>(o: &CheckOpts) -> i32 {
                 "distinct_nontrivial": all.keys.len(),
                 "rule": P::rule(),
                 "samples": samples,
+                "distinct_secondary_keys": all.keys2.len(),
                 "scheduling_steps": all.sum.steps,
                 "nontrivial_runs": all.sum.nontrivial,
                 "runs_per_hour": runs_per_hour,
